@@ -372,3 +372,26 @@ def strip_cuts(e):
             return ('void',)
         return items[0] if len(items) == 1 else ('seq', items)
     return replace_children(e, [strip_cuts(c) for c in children(e)])
+
+
+def rename_rules(rules, ren):
+    """rules with the rule names (definitions and calls) renamed through the dict ren"""
+    from .gast import replace_children
+
+    def rn(e):
+        if e[0] in ('call', 'inc'):
+            return (e[0], ren.get(e[1], e[1]))
+        return replace_children(e, [rn(c) for c in children(e)])
+    return [(ren.get(n, n), rn(x)) for n, x in rules]
+
+
+def underscore_twins(rnd, rules):
+    """two rules of the grammar get names that differ only in leading/trailing underscores (x and _x, x_ or _x_): anything keyed by a
+    'normalised' rule name (memo keys, method names, caches) must still tell them apart"""
+    if len(rules) < 2:
+        return rules
+    (a, _), (b, _) = rnd.sample(rules, 2)
+    twin = rnd.choice(['_' + a, a + '_', '_' + a + '_'])
+    if twin in [n for n, _ in rules]:
+        return rules
+    return rename_rules(rules, {b: twin})
